@@ -30,7 +30,7 @@ CLAUSES = {
 
 # (class, max length, gap sets) per property and tier
 PLANS = {
-    'C03': {'quick': [('control', 3, [G_NEAR]), ('far', 4, [G_CJ, G_J]), ('far', 3, [G_CB, G_B, G_BEYOND, G_HILO]), ('abs', 4, [[]])],
+    'C03': {'quick': [('control', 3, [G_NEAR]), ('far', 4, [G_CJ, G_J]), ('far', 3, [G_CB, G_B, G_BEYOND, G_HILO]), ('abs', 4, [[]]), ('datamix', 3, [[3]])],
             'thorough': [('control', 4, [G_NEAR, G_CB]), ('far', 4, [G_CB, G_CJ, G_B, G_J, G_BEYOND, G_HILO]), ('far', 5, [G_CJ]), ('abs', 5, [[]]), ('oddalign', 4, [[]])]},
     'C04': {'quick': [('control', 4, [G_NEAR]), ('literals', 2, [[]]), ('far', 3, [G_CB, G_CJ, G_J]), ('abs', 3, [[]])],
             'thorough': [('control', 4, [G_NEAR, G_CB, G_CJ]), ('literals', 3, [[]]), ('far', 4, [G_CB, G_CJ, G_B, G_J])]},
